@@ -85,7 +85,7 @@ func runRT(sc rtScenario) (nontriv bool, problem string, inconclusive bool) {
 		return out
 	}
 	pm := int64(sc.period) * 1000
-	var window []time.Time
+	var window [][2]time.Time // per failure: earliest and latest moment the supervisor can have stamped it
 	dead := func() bool {
 		select {
 		case <-supDead:
@@ -103,23 +103,8 @@ func runRT(sc rtScenario) (nontriv bool, problem string, inconclusive bool) {
 			return nontriv, fmt.Sprintf("supervisor terminated (%v) before failure #%d", supReason, k+1), false
 		}
 		victims := childPIDs()
-		now := time.Now()
+		lo := time.Now()
 		node.Kill(victims[0])
-		edge := false
-		count := 1
-		for _, w := range window {
-			age := now.Sub(w).Milliseconds()
-			if age > pm-200 && age < pm+200 {
-				edge = true
-			}
-			if age <= pm {
-				count++
-			} else {
-				nontriv = true
-			}
-		}
-		window = append(window, now)
-		exceeded := count > sc.intensity
 		// outcome: either the supervisor dies, or the child population is restored
 		kit.WaitUntil(2*time.Second, func() bool {
 			if dead() {
@@ -136,6 +121,28 @@ func runRT(sc rtScenario) (nontriv bool, problem string, inconclusive bool) {
 			}
 			return true
 		})
+		hi := time.Now()
+		// The supervisor stamps a failure when it handles it: some time between the kill and the
+		// moment its reaction became visible. With [lo, hi] for every failure, an earlier failure
+		// is certainly inside the window if even its largest possible age is, and possibly inside
+		// if its smallest possible age is; the verdict is judged only when both counts agree.
+		countMin, countMax := 1, 1
+		for _, w := range window {
+			maxAge := hi.Sub(w[0]).Milliseconds()
+			minAge := lo.Sub(w[1]).Milliseconds()
+			if maxAge <= pm-20 {
+				countMin++
+			}
+			if minAge <= pm+20 {
+				countMax++
+			} else {
+				nontriv = true
+			}
+		}
+		window = append(window, [2]time.Time{lo, hi})
+		edge := (countMin > sc.intensity) != (countMax > sc.intensity)
+		count := countMin
+		exceeded := count > sc.intensity
 		time.Sleep(20 * time.Millisecond)
 		gaveUp := dead()
 		if edge {
@@ -145,7 +152,7 @@ func runRT(sc rtScenario) (nontriv bool, problem string, inconclusive bool) {
 			continue
 		}
 		if exceeded != gaveUp {
-			return nontriv, fmt.Sprintf("failure #%d is restart %d within the last %d s (limit %d): gave up = %v", k+1, count, sc.period, sc.intensity, gaveUp), false
+			return nontriv, fmt.Sprintf("failure #%d is restart %d..%d within the last %d s (limit %d): gave up = %v", k+1, countMin, countMax, sc.period, sc.intensity, gaveUp), false
 		}
 		if gaveUp {
 			if !errors.Is(supReason, act.ErrSupervisorRestartsExceeded) {
